@@ -28,7 +28,7 @@ theorem det_diagonal' (d : n → α) : det (Matrix.diagonal d) = ∏ i, d i :=
   Matrix.det_diagonal
 
 /-- 1. Matrix determinant lemma for a symmetric rank-one update. -/
-theorem det_rank_one_update (L S : Matrix n n α) (hLS : L * S = 1) (hSL : S * L = 1)
+theorem det_rank_one_update (L S : Matrix n n α) (hLS : L * S = 1) (_hSL : S * L = 1)
     (g : α) (v : n → α) :
     det (L + g • Matrix.vecMulVec v v) = det L * (1 + g * (v ⬝ᵥ (S *ᵥ v))) := by
   have key : L + g • Matrix.vecMulVec v v
@@ -39,8 +39,8 @@ theorem det_rank_one_update (L S : Matrix n n α) (hLS : L * S = 1) (hSL : S * L
     dotProduct_smul, smul_eq_mul]
 
 /-- 2. Generalised matrix determinant lemma (marginal covariance of an affine map). -/
-theorem det_add_mul_mul_transpose (S L : Matrix m m α) (hSL : S * L = 1) (hLS : L * S = 1)
-    (Sx Lx : Matrix n n α) (hSxLx : Sx * Lx = 1) (hLxSx : Lx * Sx = 1) (M : Matrix m n α) :
+theorem det_add_mul_mul_transpose (S L : Matrix m m α) (hSL : S * L = 1) (_hLS : L * S = 1)
+    (Sx Lx : Matrix n n α) (hSxLx : Sx * Lx = 1) (_hLxSx : Lx * Sx = 1) (M : Matrix m n α) :
     det (S + M * Sx * Mᵀ) = det S * det Sx * det (Lx + Mᵀ * L * M) := by
   have h1 : S + M * Sx * Mᵀ = S * (1 + (L * M) * (Sx * Mᵀ)) := by
     rw [Matrix.mul_add, Matrix.mul_one, ← Matrix.mul_assoc, ← Matrix.mul_assoc,
@@ -54,7 +54,7 @@ theorem det_add_mul_mul_transpose (S L : Matrix m m α) (hSL : S * L = 1) (hLS :
 theorem det_joint_cov (Sx Lx : Matrix n n α) (hSxLx : Sx * Lx = 1) (hLxSx : Lx * Sx = 1)
     (S : Matrix m m α) (M : Matrix m n α) :
     det (Matrix.fromBlocks Sx (Sx * Mᵀ) (M * Sx) (S + M * Sx * Mᵀ)) = det Sx * det S := by
-  letI : Invertible Sx := ⟨Lx, hLxSx, hSxLx⟩
+  let _ : Invertible Sx := ⟨Lx, hLxSx, hSxLx⟩
   have hinv : ⅟Sx = Lx := rfl
   rw [det_fromBlocks₁₁, hinv]
   have : S + M * Sx * Mᵀ - M * Sx * Lx * (Sx * Mᵀ) = S := by
@@ -65,7 +65,7 @@ theorem det_joint_cov (Sx Lx : Matrix n n α) (hSxLx : Sx * Lx = 1) (hLxSx : Lx 
 theorem det_joint_prec (L S : Matrix m m α) (hLS : L * S = 1) (hSL : S * L = 1)
     (Lx : Matrix n n α) (M : Matrix m n α) :
     det (Matrix.fromBlocks (Lx + Mᵀ * L * M) (-(Mᵀ * L)) (-(L * M)) L) = det L * det Lx := by
-  letI : Invertible L := ⟨S, hSL, hLS⟩
+  let _ : Invertible L := ⟨S, hSL, hLS⟩
   have hinv : ⅟L = S := rfl
   rw [det_fromBlocks₂₂, hinv]
   have : Lx + Mᵀ * L * M - -(Mᵀ * L) * S * -(L * M) = Lx := by
@@ -111,21 +111,28 @@ theorem foldl_perm_of_right_comm {β γ : Type*} (f : β → γ → β)
     l₁.foldl f b = l₂.foldl f b :=
   p.foldl_eq' (fun x _ y _ z => hf z x y) b
 
-/-- 8'. The natural-parameter update `(Λ, ν, c) ↦ (Λ + Λᵢ, ν + νᵢ, c + cᵢ)` is
-right-commutative. -/
+/-- The natural-parameter (information-form) Bayesian update
+`(Λ, ν, c) ↦ (Λ + Λᵢ, ν + νᵢ, c + cᵢ)`. -/
+def natUpdate {A B C : Type*} [Add A] [Add B] [Add C] (s t : A × B × C) : A × B × C :=
+  (s.1 + t.1, s.2.1 + t.2.1, s.2.2 + t.2.2)
+
+/-- 8'. The natural-parameter update is right-commutative. -/
 theorem natural_param_update_comm {A B C : Type*}
-    [AddCommMonoid A] [AddCommMonoid B] [AddCommMonoid C]
-    (p x y : A × B × C) :
-    (fun (s t : A × B × C) => (s.1 + t.1, s.2.1 + t.2.1, s.2.2 + t.2.2))
-        ((fun (s t : A × B × C) => (s.1 + t.1, s.2.1 + t.2.1, s.2.2 + t.2.2)) p x) y
-      = (fun (s t : A × B × C) => (s.1 + t.1, s.2.1 + t.2.1, s.2.2 + t.2.2))
-        ((fun (s t : A × B × C) => (s.1 + t.1, s.2.1 + t.2.1, s.2.2 + t.2.2)) p y) x := by
-  simp only [Prod.mk.injEq]
+    [AddCommMonoid A] [AddCommMonoid B] [AddCommMonoid C] (p x y : A × B × C) :
+    natUpdate (natUpdate p x) y = natUpdate (natUpdate p y) x := by
+  simp only [natUpdate, Prod.mk.injEq]
   exact ⟨add_right_comm _ _ _, add_right_comm _ _ _, add_right_comm _ _ _⟩
+
+/-- 8''. Hence Bayesian updates applied in any order give the same natural parameters. -/
+theorem natural_param_foldl_perm {A B C : Type*}
+    [AddCommMonoid A] [AddCommMonoid B] [AddCommMonoid C]
+    {l₁ l₂ : List (A × B × C)} (p : l₁.Perm l₂) (b : A × B × C) :
+    l₁.foldl natUpdate b = l₂.foldl natUpdate b :=
+  foldl_perm_of_right_comm natUpdate natural_param_update_comm p b
 
 /-- 9. For square invertible `A` with inverse `B`: `Aᵀ (A Aᵀ)⁻¹ A = 1`, where
 `(A Aᵀ)⁻¹ = Bᵀ B`. -/
-theorem transpose_mul_inv_gram_mul (A B : Matrix n n α) (hAB : A * B = 1) (hBA : B * A = 1) :
+theorem transpose_mul_inv_gram_mul (A B : Matrix n n α) (_hAB : A * B = 1) (hBA : B * A = 1) :
     Aᵀ * (Bᵀ * B) * A = 1 := by
   have h : Aᵀ * Bᵀ = 1 := by rw [← Matrix.transpose_mul, hBA, Matrix.transpose_one]
   rw [← Matrix.mul_assoc, h, Matrix.one_mul, hBA]
@@ -135,4 +142,7 @@ end GtvLemmas
 #print axioms GtvLemmas.det_rank_one_update
 #print axioms GtvLemmas.det_add_mul_mul_transpose
 #print axioms GtvLemmas.det_joint_cov
+#print axioms GtvLemmas.det_joint_prec
 #print axioms GtvLemmas.det_principal_submatrix_reindex
+#print axioms GtvLemmas.natural_param_foldl_perm
+#print axioms GtvLemmas.transpose_mul_inv_gram_mul
